@@ -35,9 +35,14 @@ def corrupt_lid(c):
 
 
 def corrupt_trace(tr):
-    rets = [e for e in tr if e.get("ev") == "ret" and e.get("res") == "ok" and e.get("id")]
-    if len(rets) >= 2:
-        rets[-1]["id"] = rets[0]["id"]  # a value handed out twice
+    """Always rejectable: the last acknowledged insert reports the id -7, which the tracker can never return."""
+    rets = [e for e in tr if e.get("ev") == "ret" and e.get("res") == "ok"]
+    if rets:
+        rets[-1]["id"] = -7
+    else:
+        for e in tr:
+            if e.get("ev") == "final":
+                e["store"]["main"] = {t: [-7] for t in e["store"]["main"]}
     return tr
 
 
@@ -53,7 +58,7 @@ def run(ctx):
         bg.tlc_expect_violation(ctx, "AutoInc.tla", "c28_neg_nolock.cfg", "GeneratedValuesUnique")
     env = {"VERIF_ONLY": "c28"}
     beh = bg.drop_prefixes(ctx.tlc_behaviours("AutoInc.tla", ctx.q("c28_sim_quick.cfg", "c28_sim_thorough.cfg"), num=ctx.q(100, 400), depth=ctx.q(30, 50)))
-    ctx.cov["action_histogram"] = bg.require_actions(beh, ["InsertGen", "InsertExplicit", "Delete", "AlterAI", "Commit", "Rollback", "Checkout", "Read"], "autoinc")
+    ctx.cov["action_histogram"] = bg.require_actions(beh, ["InsertGen", "InsertExplicit", "Delete", "AlterAI", "Commit", "Rollback", "Checkout", "Read"], "autoinc", ctx)
     cs = bg.ai_cases(ctx, beh)
     ctx.binding_selftest(binary, cs[0], corrupt_lid, args=["replay"], env=env)
     bg.replay_chunked(ctx, binary, cs, args=["replay"], critical=critical, wrap=lambda c: c, env=env, timeout=ctx.q(3600, 14400),
